@@ -558,3 +558,1116 @@ Proof.
     + apply (InvG_result_nopanic _ h); auto.
   - destruct (negb (is_open s)); [discriminate|]. apply (InvG_result_nopanic _ h); auto.
 Qed.
+
+(* ==============================================================================================
+   Frame properties of a step: which labels can touch which part of the state / produce which outputs *)
+
+(* the connection can no longer reach poll_ready / poll_next: stable *)
+Definition dead (s : st) : Prop := g_close_now s = true \/ c_state s <> COpen.
+
+Lemma dead_not_ready s : dead s -> in_poll_ready s = false.
+Proof.
+  unfold dead, in_poll_ready, is_open. intros [H|H].
+  - rewrite H. destruct (c_state s); cbn; try reflexivity. destruct (g_pending s); reflexivity.
+  - destruct (c_state s); cbn; try reflexivity. contradiction.
+Qed.
+
+Definition relS (o : out) : bool :=
+  match o with OFrame WSettingsAck | OApplyRemote _ _ | OApplyRemoteFailed => true | _ => false end.
+Definition relP (o : out) : bool :=
+  match o with OFrame (WPing true _) | OLostPong _ => true | _ => false end.
+Definition relL (o : out) : bool :=
+  match o with OFrame (WSettings _) | OApplyLocal _ => true | _ => false end.
+Definition relE (o : out) : bool :=
+  match o with OStreamsGoAway _ _ _ => true | _ => false end.
+Definition relU (o : out) : bool :=
+  match o with OApi APingOk | OApi APong | OFrame (WPing false _) | OUserAck => true | _ => false end.
+
+Definition grpS (l : label) : bool := match l with LSettingsAck _ _ | LRecv (InSettings _) => true | _ => false end.
+Definition grpP (l : label) : bool := match l with LPollPong _ | LRecv (InPing false _) => true | _ => false end.
+Definition grpL (l : label) : bool :=
+  match l with LSendSettings _ | LSettingsLocal _ | LRecv (InSettingsAck _) => true | _ => false end.
+Definition grpE (l : label) : bool := match l with LTakeError | LRecv (InGoAway _ _ _) => true | _ => false end.
+Definition grpU (l : label) : bool :=
+  match l with
+  | LTakeUserPings | LUserSendPing | LUserPollPong | LDropConn | LPollPing _ | LRecv (InPing _ _) => true
+  | _ => false
+  end.
+
+Definition none_of (r : out -> bool) (o : list out) : Prop := forallb (fun e => negb (r e)) o = true.
+
+Lemma none_of_app r o x : none_of r o -> none_of r x -> none_of r (o ++ x).
+Proof. unfold none_of. intros A B. rewrite forallb_app, A, B. reflexivity. Qed.
+
+Lemma neutral_none_of r x :
+  (forall e, neutral e = true -> r e = false) -> forallb neutral x = true -> none_of r x.
+Proof.
+  intros Hr. unfold none_of. induction x as [|e x IH]; cbn [forallb]; [reflexivity|].
+  intros H. apply andb_true_iff in H. destruct H as (A & B). rewrite (Hr e A), (IH B). reflexivity.
+Qed.
+
+Lemma neutral_relS e : neutral e = true -> relS e = false. Proof. destruct e; cbn; try discriminate; reflexivity. Qed.
+Lemma neutral_relP e : neutral e = true -> relP e = false. Proof. destruct e; cbn; try discriminate; reflexivity. Qed.
+Lemma neutral_relL e : neutral e = true -> relL e = false. Proof. destruct e; cbn; try discriminate; reflexivity. Qed.
+Lemma neutral_relE e : neutral e = true -> relE e = false. Proof. destruct e; cbn; try discriminate; reflexivity. Qed.
+Lemma neutral_relU e : neutral e = true -> relU e = false.
+Proof. destruct e as [| | | | | | | | | | | | | | |r|]; cbn; try discriminate; try reflexivity. Qed.
+
+Definition frame (l : label) (s s' : st) (o : list out) : Prop :=
+  (grpS l = false -> s_remote s' = s_remote s /\ none_of relS o) /\
+  (grpP l = false -> p_pong s' = p_pong s /\ none_of relP o) /\
+  (grpL l = false -> s_local s' = s_local s /\ none_of relL o) /\
+  (grpE l = false -> c_error s' = c_error s /\ s_max s' = s_max s /\ none_of relE o) /\
+  (grpU l = false -> p_user s' = p_user s /\ none_of relU o) /\
+  (dead s -> dead s').
+
+Lemma ga_now_fields s f s' :
+  ga_go_away_now s f = inl s' ->
+  s_local s' = s_local s /\ s_remote s' = s_remote s /\ s_initial s' = s_initial s /\
+  p_ping s' = p_ping s /\ p_pong s' = p_pong s /\ p_user s' = p_user s /\
+  c_state s' = c_state s /\ c_error s' = c_error s /\ r_last s' = r_last s /\ r_max s' = r_max s /\ s_max s' = s_max s /\
+  g_close_now s' = true /\ g_user s' = g_user s.
+Proof.
+  destruct f as [[l r] d]. intros H. apply ga_go_away_now_spec in H.
+  destruct H as [(E & _)|(E & _)]; subst s'; cbn; repeat split; reflexivity.
+Qed.
+
+Lemma result_state_fields s s' :
+  result_state s s' ->
+  s_local s' = s_local s /\ s_remote s' = s_remote s /\ s_initial s' = s_initial s /\
+  p_ping s' = p_ping s /\ p_pong s' = p_pong s /\ p_user s' = p_user s /\
+  c_error s' = c_error s /\ r_last s' = r_last s /\ r_max s' = r_max s /\ s_max s' = s_max s /\
+  (dead s -> dead s').
+Proof.
+  intros [E|[(c & Hc & E)|(reason & debug & E)]].
+  - subst. repeat split; auto.
+  - subst. cbn. repeat split; auto. intros _. right. cbn. exact Hc.
+  - apply ga_now_fields in E. destruct E as (A1 & A2 & A3 & A4 & A5 & A6 & A7 & A8 & A9 & A10 & A11 & A12 & A13).
+    repeat split; auto. intros _. left. exact A12.
+Qed.
+
+(* after handle_go_away the connection is dead *)
+Lemma handle_go_away_dead s o reason debug i s' o' fl :
+  handle_go_away s o reason debug i = SOk s' o' fl -> dead s'.
+Proof.
+  unfold handle_go_away.
+  destruct (match g_going s with Some (_, r) => r =? reason | None => false end).
+  - intros H. inversion H; subst. right. cbn. discriminate.
+  - destruct (ga_go_away_now s (r_last s, reason, debug)) as [s1|n] eqn:E; cbn [lift]; [|discriminate].
+    intros H. inversion H; subst. apply ga_now_fields in E. left. apply E.
+Qed.
+
+Lemma frame_of_result l s0 s s' o o' r fl :
+  frame l s0 s o -> handle_result s o r = SOk s' o' fl -> frame l s0 s' o'.
+Proof.
+  intros (FS & FP & FL & FE & FU & FD) H. apply handle_result_spec in H. destruct H as ((x & Eo & Hx) & R). subst o'.
+  apply result_state_fields in R. destruct R as (A1 & A2 & A3 & A4 & A5 & A6 & A7 & A8 & A9 & A10 & A11).
+  repeat split.
+  - rewrite A2. apply FS. assumption.
+  - apply none_of_app; [apply FS; assumption|apply neutral_none_of; [exact neutral_relS|exact Hx]].
+  - rewrite A5. apply FP. assumption.
+  - apply none_of_app; [apply FP; assumption|apply neutral_none_of; [exact neutral_relP|exact Hx]].
+  - rewrite A1. apply FL. assumption.
+  - apply none_of_app; [apply FL; assumption|apply neutral_none_of; [exact neutral_relL|exact Hx]].
+  - rewrite A7. apply FE. assumption.
+  - rewrite A10. apply FE. assumption.
+  - apply none_of_app; [apply FE; assumption|apply neutral_none_of; [exact neutral_relE|exact Hx]].
+  - rewrite A6. apply FU. assumption.
+  - apply none_of_app; [apply FU; assumption|apply neutral_none_of; [exact neutral_relU|exact Hx]].
+  - auto.
+Qed.
+
+Ltac frame_simple :=
+  unfold frame, none_of, dead; cbn;
+  repeat split; try reflexivity; try discriminate; try (intros; discriminate); auto; try congruence;
+  try (intros [Hd|Hd]; [left|right]; auto; discriminate).
+
+Lemma frame_refl l s : frame l s s [].
+Proof. frame_simple. Qed.
+
+Lemma frame_after_go_away l s0 s o reason s' o' fl :
+  frame l s0 s o -> after_go_away s o reason = SOk s' o' fl -> frame l s0 s' o'.
+Proof.
+  intros F. unfold after_go_away. destruct (should_close_now s).
+  - destruct (g_user s); apply frame_of_result; exact F.
+  - destruct (reason =? NO_ERROR); [|discriminate]. intros H. inversion H; subst. exact F.
+Qed.
+
+Lemma frame_go_away_now l s f s' o :
+  ga_go_away_now s f = inl s' -> none_of relS o -> none_of relP o -> none_of relL o -> none_of relE o -> none_of relU o ->
+  frame l s s' o.
+Proof.
+  intros H. apply ga_now_fields in H. destruct H as (A1 & A2 & A3 & A4 & A5 & A6 & A7 & A8 & A9 & A10 & A11 & A12 & A13).
+  intros. unfold frame. repeat split; auto. intros _. left. exact A12.
+Qed.
+
+Theorem step_frame s l s' o fl : cstep s l = SOk s' o fl -> frame l s s' o.
+Proof.
+  destruct l as [p| |reason| | | | | |hs|c| |c|c|c|c ae|c|f|r]; cbn [cstep].
+  - destruct (s_local s); intros H; inversion H; subst; frame_simple.
+  - destruct (g_going s) as [g|] eqn:Eg; [intros H; inversion H; subst; apply frame_refl|].
+    destruct (conn_go_away s MAX_ID NO_ERROR) as [s1|n] eqn:Ec; [|discriminate].
+    apply conn_go_away_spec in Ec. destruct Ec as (_ & E1 & _). subst s1. cbn [p_ping set_ga set_ids p_pong p_user].
+    destruct (p_ping s); [discriminate|]. intros H. inversion H; subst. frame_simple.
+  - destruct (ga_go_away_now (set_ga s (g_close_now s) (g_going s) true (g_pending s)) (r_last s, reason, [])) as [s1|n] eqn:E;
+      cbn [lift]; [|discriminate].
+    intros H. inversion H; subst. apply ga_now_fields in E. cbn in E.
+    destruct E as (A1 & A2 & A3 & A4 & A5 & A6 & A7 & A8 & A9 & A10 & A11 & A12 & A13).
+    unfold frame, none_of. cbn. repeat split; auto. intros _. left. exact A12.
+  - destruct (p_user s); intros H; inversion H; subst; frame_simple.
+  - destruct (p_user s) as [[| | | |]|]; intros H; inversion H; subst; frame_simple.
+  - destruct (p_user s) as [[| | | |]|]; intros H; inversion H; subst; frame_simple.
+  - destruct (p_user s); intros H; inversion H; subst; frame_simple.
+  - destruct (ga_go_away_now s (r_last s, NO_ERROR, [])) as [s1|n] eqn:E; cbn [lift]; [|discriminate].
+    intros H. inversion H; subst. eapply frame_go_away_now; [exact E| | | | |]; reflexivity.
+  - destruct (negb (is_open s)); [discriminate|].
+    destruct ((match c_error s with Some _ => true | None => false end || should_close_on_idle s) && negb hs).
+    + destruct (ga_go_away_now s (r_last s, NO_ERROR, [])) as [s1|n] eqn:E; cbn [lift]; [|discriminate].
+      intros H. inversion H; subst. eapply frame_go_away_now; [exact E| | | | |]; reflexivity.
+    + intros H. inversion H; subst. apply frame_refl.
+  - destruct (c_state s) eqn:Ecs; try discriminate. destruct c; intros H; inversion H; subst; frame_simple.
+    all: try (rewrite Ecs; discriminate).
+  - destruct (c_state s) eqn:Ecs; try discriminate.
+    destruct (match c_error s with Some (_, r, d) => (d, r) | None => ([], NO_ERROR) end) as [dbg theirs].
+    intros H. inversion H; subst. frame_simple.
+  - destruct (negb (is_open s)); [discriminate|].
+    destruct (g_pending s) as [[[l r] d]|] eqn:Ep.
+    + destruct c.
+      * apply frame_after_go_away. frame_simple.
+      * intros H. inversion H; subst. apply frame_refl.
+      * intros H. inversion H; subst. frame_simple.
+    + destruct (g_close_now s).
+      * destruct (g_going s) as [[gl gr]|].
+        -- apply frame_after_go_away. apply frame_refl.
+        -- intros H. inversion H; subst. apply frame_refl.
+      * intros H. inversion H; subst. apply frame_refl.
+  - destruct (negb (in_poll_ready s)); [discriminate|].
+    destruct (p_pong s); [destruct c|]; intros H; inversion H; subst; frame_simple.
+  - destruct (negb (in_poll_ready s)); [discriminate|].
+    destruct (p_ping s) as [[pl [|]]|] eqn:Epp.
+    + intros H. inversion H; subst. apply frame_refl.
+    + destruct c; intros H; inversion H; subst; frame_simple.
+    + destruct (p_user s) as [[| | | |]|]; try destruct c; intros H; inversion H; subst; frame_simple.
+  - destruct (negb (in_poll_ready s)); [discriminate|].
+    destruct (s_remote s) as [p|]; [|intros H; inversion H; subst; apply frame_refl].
+    destruct c; try (intros H; inversion H; subst; apply frame_refl).
+    destruct ae as [r|].
+    + apply frame_of_result. frame_simple.
+    + intros H. inversion H; subst. frame_simple.
+  - destruct (negb (in_poll_ready s)); [discriminate|].
+    destruct (s_remote s) eqn:Er; [discriminate|].
+    destruct (s_local s); try destruct c; intros H; inversion H; subst; frame_simple.
+  - destruct (can_recv s) eqn:Ecr; cbn [negb]; [|discriminate].
+    destruct f as [p|ae|ack pl|last reason debug|id raised| |]; cbn [recv_frame].
+    + destruct (s_remote s) eqn:Er; [discriminate|]. intros H. inversion H; subst. frame_simple.
+    + destruct (s_local s) as [q|q|].
+      * apply frame_of_result. apply frame_refl.
+      * destruct ae as [r|].
+        -- apply frame_of_result. frame_simple.
+        -- intros H. inversion H; subst. frame_simple.
+      * apply frame_of_result. apply frame_refl.
+    + destruct (p_pong s) eqn:Epong; [discriminate|]. destruct ack.
+      * assert (Huser : forall o1 f1,
+                  (let '(u, o) := user_receive_pong (p_user s) pl in SOk (set_ping s (p_ping s) None u) o FNext) = SOk s' o1 f1 ->
+                  frame (LRecv (InPing true pl)) s s' o1).
+        { intros o1 f1. unfold user_receive_pong.
+          destruct (p_user s) as [[| | | |]|]; try destruct (pl =? PING_USER); intros H; inversion H; subst; frame_simple. }
+        destruct (p_ping s) as [[ppl sent]|] eqn:Epp; [|apply Huser].
+        destruct (ppl =? pl) eqn:Eeq; [|apply Huser].
+        destruct (negb (ppl =? PING_SHUTDOWN)); [discriminate|].
+        cbn [g_going set_ping r_last].
+        destruct (g_going s) as [[gl gr]|] eqn:Eg; [|discriminate].
+        destruct (conn_go_away (set_ping s None None (p_user s)) (r_last s) NO_ERROR) as [s1|n] eqn:Ec; cbn [lift]; [|discriminate].
+        apply conn_go_away_spec in Ec. destruct Ec as (_ & E1 & _).
+        intros H. inversion H; subst. frame_simple.
+      * intros H. inversion H; subst. frame_simple.
+    + destruct (s_max s <? last).
+      * apply frame_of_result. apply frame_refl.
+      * intros H. inversion H; subst. frame_simple.
+    + destruct raised; [|intros H; inversion H; subst; apply frame_refl].
+      destruct (r_max s <? id); [discriminate|]. destruct (id <=? r_last s); [discriminate|].
+      intros H. inversion H; subst. frame_simple.
+    + intros H. inversion H; subst. apply frame_refl.
+    + apply frame_of_result. frame_simple.
+  - destruct (negb (is_open s)); [discriminate|]. apply frame_of_result. apply frame_refl.
+Qed.
+
+Definition opt_list {A} (o : option A) : list A := match o with Some x => [x] | None => [] end.
+
+Lemma fold_none_of {T} (f : T -> out -> T) (r : out -> bool) :
+  (forall h e, r e = false -> f h e = h) -> forall o h, none_of r o -> fold_left f o h = h.
+Proof.
+  intros Hf. unfold none_of. induction o as [|e o IH]; intros h; cbn [fold_left forallb]; [reflexivity|].
+  intros H. apply andb_true_iff in H. destruct H as (A & B). apply negb_true_iff in A.
+  rewrite (Hf h e A). apply IH. exact B.
+Qed.
+
+(* ==============================================================================================
+   C14: SETTINGS received / acknowledged / applied *)
+
+Record hS := mkHS {
+  hs_taken : list sparams;       (* non-ACK SETTINGS frames taken from the codec, newest first *)
+  hs_applied : list sparams;     (* OApplyRemote: parameters handed to streams.apply_remote_settings + codec, newest first *)
+  hs_acks : N;                   (* SETTINGS ACK frames emitted *)
+  hs_fail : N                    (* streams.apply_remote_settings failures *)
+}.
+
+Definition labS (h : hS) (l : label) : hS :=
+  match l with
+  | LRecv (InSettings p) => mkHS (p :: hs_taken h) (hs_applied h) (hs_acks h) (hs_fail h)
+  | _ => h
+  end.
+
+Definition outS (h : hS) (o : out) : hS :=
+  match o with
+  | OFrame WSettingsAck => mkHS (hs_taken h) (hs_applied h) (hs_acks h + 1) (hs_fail h)
+  | OApplyRemote p _ => mkHS (hs_taken h) (p :: hs_applied h) (hs_acks h) (hs_fail h)
+  | OApplyRemoteFailed => mkHS (hs_taken h) (hs_applied h) (hs_acks h) (hs_fail h + 1)
+  | _ => h
+  end.
+
+Definition updS (h : hS) (l : label) (o : list out) : hS := fold_left outS o (labS h l).
+Definition hS0 : hS := mkHS [] [] 0 0.
+
+Definition InvS (s : st) (h : hS) : Prop :=
+  (hs_fail h = 0 /\ hs_taken h = opt_list (s_remote s) ++ hs_applied h /\ hs_acks h = N.of_nat (length (hs_applied h))) \/
+  (hs_fail h = 1 /\ dead s /\
+   exists p, s_remote s = Some p /\ hs_taken h = p :: hs_applied h /\ hs_acks h = N.of_nat (length (hs_applied h)) + 1).
+
+Lemma InvS_init p0 : InvS (init p0) hS0.
+Proof. left. cbn. auto. Qed.
+
+Lemma outS_irrelevant h e : relS e = false -> outS h e = h.
+Proof. destruct e as [[| | |]| | | | | | | | | | | | | | | |]; cbn; try discriminate; reflexivity. Qed.
+
+Lemma labS_irrelevant h l : grpS l = false -> labS h l = h.
+Proof. destruct l as [| | | | | | | | | | | | | | | |[| | | | | |]|]; cbn; try discriminate; reflexivity. Qed.
+
+Theorem stepS s h l s' o fl : InvS s h -> cstep s l = SOk s' o fl -> InvS s' (updS h l o).
+Proof.
+  intros HI H. destruct (grpS l) eqn:Eg.
+  - destruct l as [| | | | | | | | | | | | | |c ae| |[p| | | | | |]|]; try discriminate; cbn [cstep] in H.
+    + (* LSettingsAck *)
+      destruct (in_poll_ready s) eqn:Epr; cbn [negb] in H; [|discriminate].
+      assert (Hnd : ~ dead s). { intros D. apply dead_not_ready in D. congruence. }
+      destruct HI as [(F0 & T & A)|(_ & D & _)]; [|contradiction].
+      destruct (s_remote s) as [p|] eqn:Er.
+      * destruct c.
+        -- destruct ae as [r|].
+           ++ cbn [handle_result] in H. pose proof (handle_go_away_dead _ _ _ _ _ _ _ _ H) as Hd.
+              apply handle_go_away_spec in H. destruct H as ((x & Eo & Hx) & R & _). subst o.
+              apply result_state_fields in R. destruct R as (_ & A2 & _). cbn in A2.
+              right. unfold updS. cbn [labS]. rewrite (fold_neutral outS); [|intros; apply outS_irrelevant; apply neutral_relS; assumption|exact Hx].
+              cbn. rewrite F0. split; [reflexivity|]. split; [exact Hd|]. exists p. split; [exact A2|].
+              split; [rewrite T; reflexivity|rewrite A; reflexivity].
+           ++ inversion H; subst. left. cbn. split; [exact F0|]. split; [rewrite T; reflexivity|]. rewrite A. lia.
+        -- inversion H; subst. left. cbn. rewrite Er. auto.
+        -- inversion H; subst. left. cbn. rewrite Er. auto.
+      * inversion H; subst. left. cbn. rewrite Er. auto.
+    + (* LRecv (InSettings p) *)
+      destruct (can_recv s) eqn:Ecr; cbn [negb] in H; [|discriminate].
+      apply can_recv_spec in Ecr. destruct Ecr as (Hpr & _ & _ & Hrem & _).
+      assert (Hnd : ~ dead s). { intros D. apply dead_not_ready in D. congruence. }
+      destruct HI as [(F0 & T & A)|(_ & D & _)]; [|contradiction].
+      cbn [recv_frame] in H. rewrite Hrem in H. inversion H; subst. left. cbn. rewrite Hrem in T. cbn in T.
+      split; [exact F0|]. split; [rewrite T; reflexivity|exact A].
+  - pose proof (step_frame _ _ _ _ _ H) as (FS & _ & _ & _ & _ & FD). destruct (FS Eg) as (Er & Hn).
+    unfold updS. rewrite labS_irrelevant by exact Eg. rewrite (fold_none_of outS relS outS_irrelevant) by exact Hn.
+    destruct HI as [(F0 & T & A)|(F1 & D & p & Ep & T & A)].
+    + left. rewrite Er. auto.
+    + right. split; [exact F1|]. split; [auto|]. exists p. rewrite Er. auto.
+Qed.
+
+(* ==============================================================================================
+   C14: PING received / answered *)
+
+Record hP := mkHP {
+  hp_taken : list N;                 (* payloads of the non-ACK PINGs taken from the codec, newest first *)
+  hp_answered : list (N * bool)      (* (payload, true) for every PONG emitted, (payload, false) for a PONG lost to an I/O error *)
+}.
+
+Definition labP (h : hP) (l : label) : hP :=
+  match l with LRecv (InPing false pl) => mkHP (pl :: hp_taken h) (hp_answered h) | _ => h end.
+
+Definition outP (h : hP) (o : out) : hP :=
+  match o with
+  | OFrame (WPing true pl) => mkHP (hp_taken h) ((pl, true) :: hp_answered h)
+  | OLostPong pl => mkHP (hp_taken h) ((pl, false) :: hp_answered h)
+  | _ => h
+  end.
+
+Definition updP (h : hP) (l : label) (o : list out) : hP := fold_left outP o (labP h l).
+Definition hP0 : hP := mkHP [] [].
+
+Definition InvP (s : st) (h : hP) : Prop := hp_taken h = opt_list (p_pong s) ++ map fst (hp_answered h).
+
+Lemma InvP_init p0 : InvP (init p0) hP0.
+Proof. reflexivity. Qed.
+
+Lemma outP_irrelevant h e : relP e = false -> outP h e = h.
+Proof. destruct e as [[| |[|] |]| | | | | | | | | | | | | | | |]; cbn; try discriminate; reflexivity. Qed.
+
+Lemma labP_irrelevant h l : grpP l = false -> labP h l = h.
+Proof. destruct l as [| | | | | | | | | | | | | | | |[| |[|]| | | |]|]; cbn; try discriminate; reflexivity. Qed.
+
+Theorem stepP s h l s' o fl : InvP s h -> cstep s l = SOk s' o fl -> InvP s' (updP h l o).
+Proof.
+  unfold InvP. intros HI H. destruct (grpP l) eqn:Eg.
+  - destruct l as [| | | | | | | | | | | |c| | | |[| |[|] pl| | | |]|]; try discriminate; cbn [cstep] in H.
+    + destruct (negb (in_poll_ready s)); [discriminate|].
+      destruct (p_pong s) as [pl|] eqn:Ep; [destruct c|]; inversion H; subst; cbn; rewrite ?Ep; rewrite HI; reflexivity.
+    + destruct (can_recv s) eqn:Ecr; cbn [negb] in H; [|discriminate].
+      apply can_recv_spec in Ecr. destruct Ecr as (_ & Hpong & _).
+      cbn [recv_frame] in H. rewrite Hpong in H. inversion H; subst. cbn. rewrite HI, Hpong. reflexivity.
+  - pose proof (step_frame _ _ _ _ _ H) as (_ & FP & _). destruct (FP Eg) as (Er & Hn).
+    unfold updP. rewrite labP_irrelevant by exact Eg. rewrite (fold_none_of outP relP outP_irrelevant) by exact Hn.
+    rewrite Er. exact HI.
+Qed.
+
+(* ==============================================================================================
+   C14: local SETTINGS sent / applied *)
+
+Record hL := mkHL {
+  hl_sent : list sparams;        (* SETTINGS frames sent (the handshake's first), newest first *)
+  hl_applied : list sparams      (* OApplyLocal: applied to the receive side of codec and streams, newest first *)
+}.
+
+Definition outL (h : hL) (o : out) : hL :=
+  match o with
+  | OFrame (WSettings p) => mkHL (p :: hl_sent h) (hl_applied h)
+  | OApplyLocal p => mkHL (hl_sent h) (p :: hl_applied h)
+  | _ => h
+  end.
+
+Definition updL (h : hL) (o : list out) : hL := fold_left outL o h.
+Definition hL0 (p0 : sparams) : hL := mkHL [p0] [].
+
+Definition InvL (s : st) (h : hL) : Prop :=
+  match s_local s with
+  | LWaitingAck p => hl_sent h = p :: hl_applied h
+  | _ => hl_sent h = hl_applied h
+  end.
+
+Lemma InvL_init p0 : InvL (init p0) (hL0 p0).
+Proof. reflexivity. Qed.
+
+Lemma outL_irrelevant h e : relL e = false -> outL h e = h.
+Proof. destruct e as [[| | |]| | | | | | | | | | | | | | | |]; cbn; try discriminate; reflexivity. Qed.
+
+Lemma InvL_result s h o r s' o' fl :
+  InvL s (updL h o) -> handle_result s o r = SOk s' o' fl -> InvL s' (updL h o').
+Proof.
+  intros HI H. apply handle_result_spec in H. destruct H as ((x & Eo & Hx) & R). subst o'.
+  apply result_state_fields in R. destruct R as (A1 & _).
+  unfold updL. rewrite (fold_neutral outL); [|intros; apply outL_irrelevant; apply neutral_relL; assumption|exact Hx].
+  unfold InvL. rewrite A1. exact HI.
+Qed.
+
+Theorem stepL s h l s' o fl : InvL s h -> cstep s l = SOk s' o fl -> InvL s' (updL h o).
+Proof.
+  intros HI H. destruct (grpL l) eqn:Eg.
+  - destruct l as [p| | | | | | | | | | | | | | |c|[|ae| | | | |]|]; try discriminate; cbn [cstep] in H.
+    + unfold InvL in *. destruct (s_local s) eqn:El; inversion H; subst; cbn; rewrite ?El; auto.
+    + destruct (negb (in_poll_ready s)); [discriminate|]. destruct (s_remote s); [discriminate|].
+      unfold InvL in *. destruct (s_local s) as [p|p|] eqn:El; try destruct c; inversion H; subst; cbn; rewrite ?El; auto.
+      rewrite HI. reflexivity.
+    + destruct (negb (can_recv s)); [discriminate|]. cbn [recv_frame] in H.
+      destruct (s_local s) as [p|p|] eqn:El.
+      * refine (InvL_result _ h [] _ _ _ _ _ H). exact HI.
+      * destruct ae as [r|].
+        -- refine (InvL_result _ h [OApplyLocalFailed] _ _ _ _ _ H). exact HI.
+        -- inversion H; subst. unfold InvL in *. rewrite El in HI. cbn. rewrite HI. reflexivity.
+      * refine (InvL_result _ h [] _ _ _ _ _ H). exact HI.
+  - pose proof (step_frame _ _ _ _ _ H) as (_ & _ & FL & _). destruct (FL Eg) as (Er & Hn).
+    unfold updL. rewrite (fold_none_of outL relL outL_irrelevant) by exact Hn.
+    unfold InvL in *. rewrite Er. exact HI.
+Qed.
+
+(* ==============================================================================================
+   C15, receiving side: the peer's GOAWAY frames *)
+
+Definition outE (h : list gframe) (o : out) : list gframe :=
+  match o with OStreamsGoAway l r d => (l, r, d) :: h | _ => h end.
+
+Definition updE (h : list gframe) (o : list out) : list gframe := fold_left outE o h.
+
+Definition head_last (h : list gframe) : N := match h with (l, _, _) :: _ => l | [] => MAX_ID end.
+
+Fixpoint descE (h : list gframe) : Prop :=
+  match h with
+  | [] => True
+  | (l, _, _) :: t => l <= head_last t /\ descE t
+  end.
+
+Definition InvE (s : st) (h : list gframe) : Prop :=
+  (forall l r d, c_error s = Some (l, r, d) -> hd_error h = Some (l, r, d)) /\ s_max s = head_last h /\ descE h.
+
+Lemma InvE_init p0 : InvE (init p0) [].
+Proof. unfold InvE. cbn. repeat split; auto; intros; discriminate. Qed.
+
+Lemma outE_irrelevant h e : relE e = false -> outE h e = h.
+Proof. destruct e; cbn; try discriminate; reflexivity. Qed.
+
+Lemma InvE_result s h o r s' o' fl :
+  InvE s (updE h o) -> handle_result s o r = SOk s' o' fl -> InvE s' (updE h o').
+Proof.
+  intros HI H. apply handle_result_spec in H. destruct H as ((x & Eo & Hx) & R). subst o'.
+  apply result_state_fields in R. destruct R as (_ & _ & _ & _ & _ & _ & A7 & _ & _ & A10 & _).
+  unfold updE. rewrite (fold_neutral outE); [|intros; apply outE_irrelevant; apply neutral_relE; assumption|exact Hx].
+  unfold InvE. rewrite A7, A10. exact HI.
+Qed.
+
+Theorem stepE s h l s' o fl : InvE s h -> cstep s l = SOk s' o fl -> InvE s' (updE h o).
+Proof.
+  intros HI H. destruct (grpE l) eqn:Eg.
+  - destruct l as [| | | | | | | | | | | | | | | |[| | |last reason debug| | |]|]; try discriminate; cbn [cstep] in H.
+    + destruct (c_state s); try discriminate.
+      destruct (match c_error s with Some (_, r, d) => (d, r) | None => ([], NO_ERROR) end) as [dbg theirs].
+      inversion H; subst. destruct HI as (A & B & C). unfold InvE. cbn. repeat split; auto. intros; discriminate.
+    + destruct (negb (can_recv s)); [discriminate|]. cbn [recv_frame] in H.
+      destruct (s_max s <? last) eqn:E.
+      * refine (InvE_result _ h [] _ _ _ _ _ H). exact HI.
+      * inversion H; subst. destruct HI as (A & B & C). unfold InvE. cbn. repeat split; auto.
+        all: try (intros l r d H1; inversion H1; subst; reflexivity).
+        rewrite <- B. lia.
+  - pose proof (step_frame _ _ _ _ _ H) as (_ & _ & _ & FE & _). destruct (FE Eg) as (E1 & E2 & Hn).
+    unfold updE. rewrite (fold_none_of outE relE outE_irrelevant) by exact Hn.
+    unfold InvE in *. rewrite E1, E2. exact HI.
+Qed.
+
+(* ==============================================================================================
+   C14: user pings *)
+
+Record hU := mkHU {
+  hu_ok : N;        (* successful send_ping calls *)
+  hu_ping : N;      (* PING(USER) frames emitted *)
+  hu_ack : N;       (* acknowledgements of a user ping accepted (PENDING_PONG -> RECEIVED_PONG) *)
+  hu_pong : N       (* pongs delivered by poll_pong *)
+}.
+
+Definition outU (h : hU) (o : out) : hU :=
+  match o with
+  | OApi APingOk => mkHU (hu_ok h + 1) (hu_ping h) (hu_ack h) (hu_pong h)
+  | OFrame (WPing false pl) => if pl =? PING_USER then mkHU (hu_ok h) (hu_ping h + 1) (hu_ack h) (hu_pong h) else h
+  | OUserAck => mkHU (hu_ok h) (hu_ping h) (hu_ack h + 1) (hu_pong h)
+  | OApi APong => mkHU (hu_ok h) (hu_ping h) (hu_ack h) (hu_pong h + 1)
+  | _ => h
+  end.
+
+Definition updU (h : hU) (o : list out) : hU := fold_left outU o h.
+Definition hU0 : hU := mkHU 0 0 0 0.
+
+Definition InvU (s : st) (h : hU) : Prop :=
+  match p_user s with
+  | None => hu_ok h = 0 /\ hu_ping h = 0 /\ hu_ack h = 0 /\ hu_pong h = 0
+  | Some UEmpty => hu_ok h = hu_ping h /\ hu_ping h = hu_ack h /\ hu_ack h = hu_pong h
+  | Some UPendingPing => hu_ok h = hu_ping h + 1 /\ hu_ping h = hu_ack h /\ hu_ack h = hu_pong h
+  | Some UPendingPong => hu_ok h = hu_ping h /\ hu_ping h = hu_ack h + 1 /\ hu_ack h = hu_pong h
+  | Some UReceivedPong => hu_ok h = hu_ping h /\ hu_ping h = hu_ack h /\ hu_ack h = hu_pong h + 1
+  | Some UClosed => hu_pong h <= hu_ack h /\ hu_ack h <= hu_ping h /\ hu_ping h <= hu_ok h /\ hu_ok h <= hu_pong h + 1
+  end.
+
+Lemma InvU_init p0 : InvU (init p0) hU0.
+Proof. cbn. auto. Qed.
+
+Lemma outU_irrelevant h e : relU e = false -> outU h e = h.
+Proof.
+  destruct e as [[| |[|] |]| | | | | | | | | | | | | | |[| | | | | | |]|]; cbn; try discriminate; reflexivity.
+Qed.
+
+Theorem stepU s hg h l s' o fl : InvG s hg -> InvU s h -> cstep s l = SOk s' o fl -> InvU s' (updU h o).
+Proof.
+  intros HG HI H. destruct (grpU l) eqn:Eg.
+  - unfold InvU in *.
+    destruct l as [| | | | | | | | | | | | |c| | |[| |ack pl| | | |]|]; try discriminate; cbn [cstep] in H.
+    + destruct (p_user s) eqn:Eu; inversion H; subst; cbn; rewrite ?Eu; auto; try lia.
+    + destruct (p_user s) as [[| | | |]|] eqn:Eu; inversion H; subst; cbn; rewrite ?Eu; auto; try lia.
+    + destruct (p_user s) as [[| | | |]|] eqn:Eu; inversion H; subst; cbn; rewrite ?Eu; auto; try lia.
+    + destruct (p_user s) as [[| | | |]|] eqn:Eu; inversion H; subst; cbn; rewrite ?Eu; auto; try lia.
+    + destruct (negb (in_poll_ready s)); [discriminate|].
+      destruct (p_ping s) as [[pl [|]]|] eqn:Epp.
+      * inversion H; subst. exact HI.
+      * destruct (G7 _ _ HG pl false Epp) as (A & _). subst pl.
+        destruct c; inversion H; subst; cbn; auto; try (rewrite shutdown_ne_user; exact HI).
+      * destruct (p_user s) as [[| | | |]|] eqn:Eu; try destruct c; inversion H; subst; cbn; rewrite ?Eu; auto; try (rewrite N.eqb_refl; cbn; lia).
+    + destruct (negb (can_recv s)); [discriminate|]. cbn [recv_frame] in H.
+      destruct (p_pong s); [discriminate|]. destruct ack; [|inversion H; subst; exact HI].
+      assert (Huser : forall o1 f1,
+                (let '(u, o) := user_receive_pong (p_user s) pl in SOk (set_ping s (p_ping s) None u) o FNext) = SOk s' o1 f1 ->
+                match p_user s' with
+                | None => hu_ok (updU h o1) = 0 /\ hu_ping (updU h o1) = 0 /\ hu_ack (updU h o1) = 0 /\ hu_pong (updU h o1) = 0
+                | Some UEmpty => hu_ok (updU h o1) = hu_ping (updU h o1) /\ hu_ping (updU h o1) = hu_ack (updU h o1) /\ hu_ack (updU h o1) = hu_pong (updU h o1)
+                | Some UPendingPing => hu_ok (updU h o1) = hu_ping (updU h o1) + 1 /\ hu_ping (updU h o1) = hu_ack (updU h o1) /\ hu_ack (updU h o1) = hu_pong (updU h o1)
+                | Some UPendingPong => hu_ok (updU h o1) = hu_ping (updU h o1) /\ hu_ping (updU h o1) = hu_ack (updU h o1) + 1 /\ hu_ack (updU h o1) = hu_pong (updU h o1)
+                | Some UReceivedPong => hu_ok (updU h o1) = hu_ping (updU h o1) /\ hu_ping (updU h o1) = hu_ack (updU h o1) /\ hu_ack (updU h o1) = hu_pong (updU h o1) + 1
+                | Some UClosed => hu_pong (updU h o1) <= hu_ack (updU h o1) /\ hu_ack (updU h o1) <= hu_ping (updU h o1) /\ hu_ping (updU h o1) <= hu_ok (updU h o1) /\ hu_ok (updU h o1) <= hu_pong (updU h o1) + 1
+                end).
+      { intros o1 f1. unfold user_receive_pong.
+        destruct (p_user s) as [[| | | |]|] eqn:Eu; try destruct (pl =? PING_USER); intros H1; inversion H1; subst; cbn; rewrite ?Eu; auto; try lia. }
+      destruct (p_ping s) as [[ppl sent]|] eqn:Epp; [|apply (Huser _ _ H)].
+      destruct (ppl =? pl) eqn:Eeq; [|apply (Huser _ _ H)].
+      destruct (negb (ppl =? PING_SHUTDOWN)); [discriminate|].
+      cbn [g_going set_ping r_last] in H.
+      destruct (g_going s) as [[gl gr]|] eqn:Egg; [|discriminate].
+      destruct (conn_go_away (set_ping s None None (p_user s)) (r_last s) NO_ERROR) as [s1|n] eqn:Ec; cbn [lift] in H; [|discriminate].
+      apply conn_go_away_spec in Ec. destruct Ec as (_ & E1 & _).
+      inversion H; subst. cbn. exact HI.
+  - pose proof (step_frame _ _ _ _ _ H) as (_ & _ & _ & _ & FU & _). destruct (FU Eg) as (E1 & Hn).
+    unfold updU. rewrite (fold_none_of outU relU outU_irrelevant) by exact Hn.
+    unfold InvU in *. rewrite E1. exact HI.
+Qed.
+
+(* ==============================================================================================
+   All label sequences *)
+
+Record hist := mkHist { hG_ : hG; hS_ : hS; hP_ : hP; hL_ : hL; hE_ : list gframe; hU_ : hU }.
+
+Definition upd (h : hist) (l : label) (o : list out) : hist :=
+  mkHist (updG (hG_ h) o) (updS (hS_ h) l o) (updP (hP_ h) l o) (updL (hL_ h) o) (updE (hE_ h) o) (updU (hU_ h) o).
+
+Definition hist0 (p0 : sparams) : hist := mkHist hG0 hS0 hP0 (hL0 p0) [] hU0.
+
+Fixpoint upd_trace (h : hist) (tr : list (label * list out * flow)) : hist :=
+  match tr with
+  | [] => h
+  | (l, o, _) :: t => upd_trace (upd h l o) t
+  end.
+
+Definition Inv (s : st) (h : hist) : Prop :=
+  InvG s (hG_ h) /\ InvS s (hS_ h) /\ InvP s (hP_ h) /\ InvL s (hL_ h) /\ InvE s (hE_ h) /\ InvU s (hU_ h).
+
+Lemma Inv_init p0 : Inv (init p0) (hist0 p0).
+Proof.
+  unfold Inv, hist0. cbn [hG_ hS_ hP_ hL_ hE_ hU_].
+  split; [apply InvG_init|]. split; [apply InvS_init|]. split; [apply InvP_init|]. split; [apply InvL_init|].
+  split; [apply InvE_init|apply InvU_init].
+Qed.
+
+Theorem step_inv s h l s' o fl : Inv s h -> cstep s l = SOk s' o fl -> Inv s' (upd h l o).
+Proof.
+  intros (A & B & C & D & E & F) H. unfold Inv, upd. cbn [hG_ hS_ hP_ hL_ hE_ hU_].
+  split; [eapply stepG; eauto|]. split; [eapply stepS; eauto|]. split; [eapply stepP; eauto|].
+  split; [eapply stepL; eauto|]. split; [eapply stepE; eauto|eapply stepU; eauto].
+Qed.
+
+Theorem run_inv ls : forall s h s' tr, Inv s h -> crun s ls = inl (s', tr) -> Inv s' (upd_trace h tr).
+Proof.
+  induction ls as [|l ls IH]; intros s h s' tr HI H; cbn [crun] in H.
+  - inversion H; subst. exact HI.
+  - destruct (cstep s l) as [s1 o1 f1|n|n] eqn:E; try discriminate.
+    destruct (crun s1 ls) as [[s2 tr2]|[k r]] eqn:E2; [|discriminate].
+    inversion H; subst. cbn [upd_trace]. eapply IH; [|exact E2]. eapply step_inv; eauto.
+Qed.
+
+(* no assert!/assert_eq!/debug_assert_eq! of settings.rs, ping_pong.rs, go_away.rs, connection.rs (and Recv::go_away) fires,
+   as long as the stream layer never hands poll2 a stream error with Initiator::User (label_ok) *)
+Theorem run_nopanic ls : forall s h, Inv s h -> forallb label_ok ls = true ->
+  match crun s ls with inr (_, SPanic _) => False | _ => True end.
+Proof.
+  induction ls as [|l ls IH]; intros s h HI Hok; cbn [crun]; [exact I|].
+  cbn [forallb] in Hok. apply andb_true_iff in Hok. destruct Hok as (Hl & Hls).
+  destruct (cstep s l) as [s1 o1 f1|n|n] eqn:E.
+  - pose proof (step_inv _ _ _ _ _ _ HI E) as HI1. specialize (IH s1 _ HI1 Hls).
+    destruct (crun s1 ls) as [[s2 tr2]|[k r]]; [exact I|]. destruct r; auto.
+  - exact I.
+  - destruct HI as (A & _). exact (step_nopanic _ _ _ _ A Hl E).
+Qed.
+
+(* ==============================================================================================
+   C14 *)
+
+(* Every SETTINGS and every PING taken from the codec is answered exactly once, in order; at most one acknowledgement of each
+   kind is owed (the `option`), and it is owed exactly while `remote` / `pending_pong` is set.
+   #taken SETTINGS = #ACKs emitted + (1 if one is owed); taken PINGs = [owed one] ++ answered ones, newest first, payload by payload. *)
+Definition owedS (s : st) (h : hS) : N :=
+  match s_remote s with Some _ => if hs_fail h =? 0 then 1 else 0 | None => 0 end.
+
+Theorem C14_ack_exactly_once p0 ls s tr :
+  crun (init p0) ls = inl (s, tr) ->
+  let h := upd_trace (hist0 p0) tr in
+  N.of_nat (length (hs_taken (hS_ h))) = hs_acks (hS_ h) + owedS s (hS_ h) /\
+  hp_taken (hP_ h) = opt_list (p_pong s) ++ map fst (hp_answered (hP_ h)) /\
+  (can_recv s = true -> s_remote s = None /\ p_pong s = None).
+Proof.
+  intros H h. pose proof (run_inv _ _ _ _ _ (Inv_init p0) H) as (_ & HS & HP & _). fold h in HS, HP.
+  split; [|split].
+  - unfold owedS. destruct HS as [(F0 & T & A)|(F1 & D & p & Ep & T & A)].
+    + rewrite T, A, F0. change (0 =? 0) with true. destruct (s_remote s); cbn [opt_list app length]; lia.
+    + rewrite T, A, F1, Ep. change (1 =? 0) with false. cbn [length]. lia.
+  - exact HP.
+  - intros Hc. apply can_recv_spec in Hc. destruct Hc as (_ & A & _ & B & _). auto.
+Qed.
+
+(* a SETTINGS ACK while local is ToSend or Synced: connection error PROTOCOL_ERROR (a GOAWAY(last_processed_id,
+   PROTOCOL_ERROR) becomes pending, the connection closes once it is written) and nothing else changes *)
+Lemma handle_go_away_fresh s h o reason d i :
+  InvG s h -> g_close_now s = false -> reason <> NO_ERROR ->
+  handle_go_away s o reason d i =
+  SOk (set_ga s true (Some (r_last s, reason)) (g_user s) (Some (r_last s, reason, d))) (o ++ [OStreamsError]) FLoop.
+Proof.
+  intros HI Hc Hr. unfold handle_go_away.
+  assert (E1 : match g_going s with Some (_, r) => r =? reason | None => false end = false).
+  { destruct (g_going s) as [[gl gr]|] eqn:Eg; [|reflexivity].
+    destruct (G3 _ _ HI Hc gl gr Eg) as (A & _). subst gr. apply N.eqb_neq. auto. }
+  rewrite E1. unfold ga_go_away_now.
+  assert (E2 : opt_pair_eqb (g_going s) (r_last s) reason = false).
+  { destruct (g_going s) as [[gl gr]|] eqn:Eg; [|reflexivity]. cbn [opt_pair_eqb].
+    destruct (G3 _ _ HI Hc gl gr Eg) as (A & _). subst gr.
+    destruct (gl =? r_last s); cbn [andb]; [|reflexivity]. apply N.eqb_neq. auto. }
+  rewrite E2. unfold ga_go_away. cbn [g_going set_ga].
+  destruct (g_going s) as [[gl gr]|] eqn:Eg; cbn [lift].
+  - pose proof (G6 _ _ HI gl gr Eg) as Hle. destruct (r_last s <=? gl) eqn:El; [|lia]. cbn [lift]. reflexivity.
+  - reflexivity.
+Qed.
+
+Theorem C14_stray_ack s h ae :
+  InvG s h -> can_recv s = true -> (forall p, s_local s <> LWaitingAck p) ->
+  cstep s (LRecv (InSettingsAck ae)) =
+  SOk (set_ga s true (Some (r_last s, PROTOCOL_ERROR)) (g_user s) (Some (r_last s, PROTOCOL_ERROR, []))) [OStreamsError] FLoop.
+Proof.
+  intros HI Hc Hl. cbn [cstep]. rewrite Hc. cbn [negb recv_frame].
+  apply can_recv_spec in Hc. destruct Hc as (Hpr & _). apply in_poll_ready_spec in Hpr. destruct Hpr as (_ & _ & Hcn).
+  destruct (s_local s) as [p|p|] eqn:El; [|exfalso; apply (Hl p); reflexivity|]; cbn [handle_result];
+    rewrite (handle_go_away_fresh _ h); auto; discriminate.
+Qed.
+
+(* the label that emits the SETTINGS ACK is the label that applies the settings: any step whose outputs contain the ACK is a
+   step of Settings::poll_send on the pending frame, and its outputs are exactly [ACK; apply p] (or [ACK; apply failed; ...]) *)
+Theorem C14_remote_apply_at_ack_step s l s' o fl :
+  cstep s l = SOk s' o fl -> In (OFrame WSettingsAck) o ->
+  exists c ae p, l = LSettingsAck c ae /\ s_remote s = Some p /\
+    ((ae = None /\ o = [OFrame WSettingsAck; OApplyRemote p (negb (s_initial s))] /\ s_remote s' = None) \/
+     (exists r x, ae = Some r /\ o = [OFrame WSettingsAck; OApplyRemoteFailed] ++ x /\ forallb neutral x = true /\ dead s')).
+Proof.
+  intros H Hin. destruct (grpS l) eqn:Eg.
+  - destruct l as [| | | | | | | | | | | | | |c ae| |[p| | | | | |]|]; try discriminate; cbn [cstep] in H.
+    + destruct (negb (in_poll_ready s)); [discriminate|].
+      destruct (s_remote s) as [p|] eqn:Er; [|inversion H; subst; destruct Hin].
+      destruct c; try (inversion H; subst; destruct Hin; fail).
+      exists Ready, ae, p. split; [reflexivity|]. split; [reflexivity|].
+      destruct ae as [r|].
+      * right. cbn [handle_result] in H. pose proof (handle_go_away_dead _ _ _ _ _ _ _ _ H) as Hd.
+        apply handle_go_away_spec in H. destruct H as ((x & Eo & Hx) & _). exists r, x. auto.
+      * left. inversion H; subst. auto.
+    + destruct (negb (can_recv s)); [discriminate|]. cbn [recv_frame] in H.
+      destruct (s_remote s); [discriminate|]. inversion H; subst. destruct Hin.
+  - pose proof (step_frame _ _ _ _ _ H) as (FS & _). destruct (FS Eg) as (_ & Hn).
+    exfalso. unfold none_of in Hn. rewrite forallb_forall in Hn. specialize (Hn _ Hin). discriminate.
+Qed.
+
+(* between the take of a SETTINGS frame and its acknowledgement nothing of it is applied, after it all of it is:
+   as long as no apply failed, applied = taken minus the pending one, and #ACK = #applied *)
+Theorem C14_remote_apply_at_ack p0 ls s tr :
+  crun (init p0) ls = inl (s, tr) ->
+  let h := hS_ (upd_trace (hist0 p0) tr) in
+  hs_fail h = 0 -> hs_taken h = opt_list (s_remote s) ++ hs_applied h /\ hs_acks h = N.of_nat (length (hs_applied h)).
+Proof.
+  intros H h F. pose proof (run_inv _ _ _ _ _ (Inv_init p0) H) as (_ & HS & _). fold h in HS.
+  destruct HS as [(_ & T & A)|(F1 & _)]; [auto|]. rewrite F in F1. discriminate.
+Qed.
+
+(* local settings: sent frames = applied ones, plus the one in flight while WaitingAck; they are applied exactly at the
+   label that takes the peer's ACK *)
+Theorem C14_local_after_ack p0 ls s tr :
+  crun (init p0) ls = inl (s, tr) ->
+  let h := hL_ (upd_trace (hist0 p0) tr) in
+  match s_local s with
+  | LWaitingAck p => hl_sent h = p :: hl_applied h
+  | _ => hl_sent h = hl_applied h
+  end.
+Proof. intros H h. pose proof (run_inv _ _ _ _ _ (Inv_init p0) H) as (_ & _ & _ & HL & _). exact HL. Qed.
+
+Theorem C14_local_apply_step s p :
+  can_recv s = true -> s_local s = LWaitingAck p ->
+  cstep s (LRecv (InSettingsAck None)) = SOk (set_settings s LSynced (s_remote s) (s_initial s)) [OApplyLocal p] FNext.
+Proof. intros Hc El. cbn [cstep]. rewrite Hc. cbn [negb recv_frame]. rewrite El. reflexivity. Qed.
+
+Theorem C14_send_settings_refused s p :
+  s_local s <> LSynced -> cstep s (LSendSettings p) = SOk s [OApi AErrSettingsPending] FNext.
+Proof. intros H. cbn [cstep]. destruct (s_local s); try reflexivity. contradiction. Qed.
+
+Theorem C14_send_settings_accepted s p :
+  s_local s = LSynced -> cstep s (LSendSettings p) = SOk (set_settings s (LToSend p) (s_remote s) (s_initial s)) [OApi AOk] FNext.
+Proof. intros H. cbn [cstep]. rewrite H. reflexivity. Qed.
+
+(* user pings: the counters of successful send_ping calls, PING(USER) frames emitted, acknowledgements accepted and pongs
+   delivered differ by at most one, according to the state of the cell *)
+Theorem C14_user_ping p0 ls s tr :
+  crun (init p0) ls = inl (s, tr) ->
+  let h := hU_ (upd_trace (hist0 p0) tr) in
+  InvU s h /\
+  hu_pong h <= hu_ack h /\ hu_ack h <= hu_ping h /\ hu_ping h <= hu_ok h /\ hu_ok h <= hu_pong h + 1.
+Proof.
+  intros H h. pose proof (run_inv _ _ _ _ _ (Inv_init p0) H) as (_ & _ & _ & _ & _ & HU). fold h in HU.
+  split; [exact HU|]. unfold InvU in HU. destruct (p_user s) as [[| | | |]|]; lia.
+Qed.
+
+Theorem C14_user_ping_refused s u :
+  p_user s = Some u -> u <> UEmpty ->
+  exists r, cstep s LUserSendPing = SOk s [OApi r] FNext /\ (r = AErrPingPending \/ (u = UClosed /\ r = AErrBrokenPipe)).
+Proof.
+  intros E Hu. cbn [cstep]. rewrite E. destruct u; try contradiction; eexists; split; try reflexivity; auto.
+Qed.
+
+Theorem C14_user_closed_absorbing s l s' o fl :
+  p_user s = Some UClosed -> cstep s l = SOk s' o fl ->
+  p_user s' = Some UClosed /\
+  (l = LUserSendPing -> o = [OApi AErrBrokenPipe]) /\ (l = LUserPollPong -> o = [OReg WPongTask; OApi AErrBrokenPipe]).
+Proof.
+  intros E H. destruct (grpU l) eqn:Eg.
+  - destruct l as [| | | | | | | | | | | | |c| | |[| |ack pl| | | |]|]; try discriminate; cbn [cstep] in H; rewrite ?E in H.
+    + inversion H; subst. repeat split; auto; discriminate.
+    + inversion H; subst. repeat split; auto; discriminate.
+    + inversion H; subst. repeat split; auto; discriminate.
+    + inversion H; subst. repeat split; auto; discriminate.
+    + destruct (negb (in_poll_ready s)); [discriminate H|].
+      destruct (p_ping s) as [[pl [|]]|]; try destruct c; inversion H; subst; cbn; repeat split; auto; discriminate.
+    + destruct (negb (can_recv s)); [discriminate H|]. cbn [recv_frame] in H.
+      destruct (p_pong s); [discriminate H|].
+      split; [|split; discriminate].
+      destruct ack; [|inversion H; subst; exact E].
+      unfold user_receive_pong in H. rewrite E in H.
+      destruct (p_ping s) as [[ppl sent]|] eqn:Epp; [|inversion H; subst; reflexivity].
+      destruct (ppl =? pl); [|inversion H; subst; reflexivity].
+      destruct (negb (ppl =? PING_SHUTDOWN)); [discriminate H|].
+      cbn [g_going set_ping r_last] in H. destruct (g_going s) as [[gl gr]|]; [|discriminate H].
+      match type of H with context [conn_go_away ?x ?a ?b] => destruct (conn_go_away x a b) as [s1|n] eqn:Ec end;
+        cbn [lift] in H; [|discriminate H].
+      apply conn_go_away_spec in Ec. destruct Ec as (_ & E1 & _). inversion H; subst. cbn. reflexivity.
+  - pose proof (step_frame _ _ _ _ _ H) as (_ & _ & _ & _ & FU & _). destruct (FU Eg) as (E1 & _).
+    rewrite E1. split; [exact E|]. split; intros El; subst l; discriminate.
+Qed.
+
+(* the lock-free cell at the granularity of its atomic operations: whenever the connection task sits between its load (which
+   saw PENDING_PING) and its store, the cell still holds PENDING_PING, whatever the user's handle did in between: the store
+   never overwrites a RECEIVED_PONG, an EMPTY or a CLOSED, and load+store act as one atomic step *)
+Definition FInv (f : fcell) : Prop := f_mid f = true -> f_cell f = UPendingPing.
+
+Lemma fstep_inv f o f' : FInv f -> fstep f o = Some f' -> FInv f'.
+Proof.
+  unfold FInv. destruct f as [c m]. destruct o; cbn [fstep f_mid f_cell]; destruct m; intros HI H; inversion H; subst; cbn;
+    try discriminate; auto.
+  - destruct c; cbn; auto; discriminate.
+  - intros _. rewrite (HI eq_refl). reflexivity.
+  - intros _. rewrite (HI eq_refl). reflexivity.
+Qed.
+
+Theorem C14_user_cell_interleavings os : forall f f', FInv f -> frun f os = Some f' -> FInv f'.
+Proof.
+  induction os as [|o os IH]; intros f f' HI H; cbn [frun] in H.
+  - inversion H; subst. exact HI.
+  - destruct (fstep f o) as [f1|] eqn:E; [|discriminate]. eapply IH; [|exact H]. eapply fstep_inv; eauto.
+Qed.
+
+(* consequently: any sequence of user operations between load and store leaves the cell unchanged *)
+Theorem C14_user_cell_atomic us :
+  forallb (fun o => match o with FUserSend | FUserPoll => true | _ => false end) us = true ->
+  frun (mkF UPendingPing true) us = Some (mkF UPendingPing true).
+Proof.
+  induction us as [|o us IH]; cbn [forallb frun]; [reflexivity|].
+  intros H. apply andb_true_iff in H. destruct H as (A & B). destruct o; try discriminate; cbn; apply IH; exact B.
+Qed.
+
+(* ---------------------------------------------------------------------------------------------- the poll2 order
+   The Stuck guards of the model are what the preceding calls of the same loop iteration establish. *)
+Theorem poll2_order s h c1 c2 c3 c4 ae c5 s1 o1 s2 o2 s3 o3 s4 o4 s5 o5 :
+  InvG s h ->
+  cstep s (LPollGoAway c1) = SOk s1 o1 FNext ->
+  in_poll_ready s1 = true /\
+  (cstep s1 (LPollPong c2) = SOk s2 o2 FNext ->
+   in_poll_ready s2 = true /\ p_pong s2 = None /\
+   (cstep s2 (LPollPing c3) = SOk s3 o3 FNext ->
+    in_poll_ready s3 = true /\ p_pong s3 = None /\ (forall pl, p_ping s3 <> Some (pl, false)) /\
+    (cstep s3 (LSettingsAck c4 ae) = SOk s4 o4 FNext ->
+     in_poll_ready s4 = true /\ p_pong s4 = None /\ (forall pl, p_ping s4 <> Some (pl, false)) /\ s_remote s4 = None /\
+     (cstep s4 (LSettingsLocal c5) = SOk s5 o5 FNext -> can_recv s5 = true)))).
+Proof.
+  intros HI H1.
+  assert (R1 : in_poll_ready s1 = true).
+  { cbn [cstep] in H1. destruct (is_open s) eqn:Eo; cbn [negb] in H1; [|discriminate].
+    unfold after_go_away in H1.
+    destruct (g_pending s) as [[[l r] d]|] eqn:Ep.
+    - destruct c1; try discriminate.
+      unfold should_close_now in H1. cbn [g_pending set_ga g_close_now g_user] in H1.
+      destruct (g_close_now s) eqn:Ec.
+      + destruct (g_user s); [cbn [handle_result] in H1; discriminate|].
+        cbn [handle_result] in H1. apply handle_go_away_spec in H1. destruct H1 as (_ & _ & F). discriminate.
+      + destruct (r =? NO_ERROR); [|discriminate]. inversion H1; subst.
+        unfold in_poll_ready, is_open in *. cbn. destruct (c_state s); try discriminate. reflexivity.
+    - destruct (g_close_now s) eqn:Ec.
+      + destruct (g_going s) as [[gl gr]|] eqn:Eg.
+        * unfold should_close_now in H1. rewrite Ep, Ec in H1.
+          destruct (g_user s); [cbn [handle_result] in H1; discriminate|].
+          cbn [handle_result] in H1. apply handle_go_away_spec in H1. destruct H1 as (_ & _ & F). discriminate.
+        * exfalso. apply (G2 _ _ HI Ec). exact Eg.
+      + inversion H1; subst. unfold in_poll_ready. rewrite Eo, Ep, Ec. reflexivity. }
+  split; [exact R1|]. intros H2.
+  assert (R2 : in_poll_ready s2 = true /\ p_pong s2 = None).
+  { cbn [cstep] in H2. rewrite R1 in H2. cbn [negb] in H2.
+    destruct (p_pong s1) as [pl|] eqn:Ep; [destruct c2; try discriminate|]; inversion H2; subst; split; auto. }
+  destruct R2 as (R2 & P2). split; [exact R2|]. split; [exact P2|]. intros H3.
+  assert (R3 : in_poll_ready s3 = true /\ p_pong s3 = None /\ (forall pl, p_ping s3 <> Some (pl, false))).
+  { cbn [cstep] in H3. rewrite R2 in H3. cbn [negb] in H3.
+    destruct (p_ping s2) as [[pl [|]]|] eqn:Epp.
+    - inversion H3; subst. repeat split; auto. intros pl' E. rewrite Epp in E. discriminate.
+    - destruct c3; try discriminate. inversion H3; subst. repeat split; auto. cbn. intros pl' E. discriminate.
+    - destruct (p_user s2) as [[| | | |]|]; try destruct c3; try discriminate; inversion H3; subst; repeat split; auto;
+        cbn; intros pl' E; try discriminate; rewrite Epp in E; discriminate. }
+  destruct R3 as (R3 & P3 & Q3). split; [exact R3|]. split; [exact P3|]. split; [exact Q3|]. intros H4.
+  assert (R4 : in_poll_ready s4 = true /\ p_pong s4 = None /\ (forall pl, p_ping s4 <> Some (pl, false)) /\ s_remote s4 = None).
+  { cbn [cstep] in H4. rewrite R3 in H4. cbn [negb] in H4.
+    destruct (s_remote s3) as [p|] eqn:Er.
+    - destruct c4; try discriminate. destruct ae as [r|].
+      + cbn [handle_result] in H4. apply handle_go_away_spec in H4. destruct H4 as (_ & _ & F). discriminate.
+      + inversion H4; subst. repeat split; auto.
+    - inversion H4; subst. repeat split; auto. }
+  destruct R4 as (R4 & P4 & Q4 & S4). split; [exact R4|]. split; [exact P4|]. split; [exact Q4|]. split; [exact S4|]. intros H5.
+  cbn [cstep] in H5. rewrite R4, S4 in H5. cbn [negb] in H5.
+  assert (X : forall s', in_poll_ready s' = true -> p_pong s' = None -> (forall pl, p_ping s' <> Some (pl, false)) ->
+              s_remote s' = None -> (forall p, s_local s' <> LToSend p) -> can_recv s' = true).
+  { intros s' A B C D E. unfold can_recv. rewrite A, B, D. cbn [andb].
+    destruct (p_ping s') as [[pl [|]]|] eqn:Epp; cbn [andb]; try (exfalso; apply (C pl); reflexivity);
+      destruct (s_local s') eqn:El; try reflexivity; exfalso; eapply E; reflexivity. }
+  destruct (s_local s4) as [p|p|] eqn:El.
+  - destruct c5; try discriminate. inversion H5; subst. apply X; auto. cbn. intros p' E. discriminate.
+  - inversion H5; subst. apply X; auto. intros p' E. rewrite El in E. discriminate.
+  - inversion H5; subst. apply X; auto. intros p' E. rewrite El in E. discriminate.
+Qed.
+
+(* ==============================================================================================
+   C15 *)
+
+(* newest first: the last_stream_ids of the GOAWAY frames emitted never increase, and each is >= every peer-initiated stream
+   processed (last_processed_id raised, i.e. handed towards the accept queue) before its emission *)
+Theorem C15_monotone p0 ls s tr :
+  crun (init p0) ls = inl (s, tr) ->
+  let h := hG_ (upd_trace (hist0 p0) tr) in
+  desc (hg_goaways h) /\ Forall (fun e => snd e <= fst e) (hg_goaways h) /\ hg_maxproc h = r_last s /\ r_last s <= r_max s.
+Proof.
+  intros H h. pose proof (run_inv _ _ _ _ _ (Inv_init p0) H) as (HG & _). fold h in HG.
+  split; [apply (G10 _ _ HG)|]. split; [apply (G9 _ _ HG)|]. split; [apply (G8 _ _ HG)|apply (G5 _ _ HG)].
+Qed.
+
+Theorem C15_no_assert p0 ls :
+  forallb label_ok ls = true -> match crun (init p0) ls with inr (_, SPanic _) => False | _ => True end.
+Proof. intros H. exact (run_nopanic ls _ _ (Inv_init p0) H). Qed.
+
+(* HEADERS above Recv::max_stream_id never raise last_processed_id (a guard of the model that the lock-step checks), and
+   go_away(id) lowers max_stream_id in the same label (C15_shutdown_pong below) *)
+Theorem C15_headers_above_max_ignored s id :
+  can_recv s = true -> r_max s < id -> cstep s (LRecv (InHeaders id true)) = SStuck 11.
+Proof.
+  intros Hc Hlt. cbn [cstep]. rewrite Hc. cbn [negb recv_frame]. destruct (r_max s <? id) eqn:E; [reflexivity|lia].
+Qed.
+
+(* receiving GOAWAY *)
+Theorem C15_recv_goaway_accept s last reason debug :
+  can_recv s = true -> last <= s_max s ->
+  cstep s (LRecv (InGoAway last reason debug)) =
+  SOk (set_conn (set_ids s (r_last s) (r_max s) last) (c_state s) (Some (last, reason, debug)))
+      [OStreamsGoAway last reason debug] FNext.
+Proof.
+  intros Hc Hle. cbn [cstep]. rewrite Hc. cbn [negb recv_frame]. destruct (s_max s <? last) eqn:E; [lia|reflexivity].
+Qed.
+
+Theorem C15_recv_goaway_increase s h last reason debug :
+  InvG s h -> can_recv s = true -> s_max s < last ->
+  cstep s (LRecv (InGoAway last reason debug)) =
+  SOk (set_ga s true (Some (r_last s, PROTOCOL_ERROR)) (g_user s) (Some (r_last s, PROTOCOL_ERROR, []))) [OStreamsError] FLoop.
+Proof.
+  intros HI Hc Hlt. cbn [cstep]. rewrite Hc. cbn [negb recv_frame]. destruct (s_max s <? last) eqn:E; [|lia].
+  apply can_recv_spec in Hc. destruct Hc as (Hpr & _). apply in_poll_ready_spec in Hpr. destruct Hpr as (_ & _ & Hcn).
+  cbn [handle_result]. rewrite (handle_go_away_fresh _ h); auto. discriminate.
+Qed.
+
+Theorem C15_recv_goaways p0 ls s tr :
+  crun (init p0) ls = inl (s, tr) ->
+  let h := hE_ (upd_trace (hist0 p0) tr) in
+  s_max s = head_last h /\ descE h /\ (forall l r d, c_error s = Some (l, r, d) -> hd_error h = Some (l, r, d)).
+Proof.
+  intros H h. pose proof (run_inv _ _ _ _ _ (Inv_init p0) H) as (_ & _ & _ & _ & (A & B & C) & _). auto.
+Qed.
+
+(* the connection's result *)
+Definition conn_result (ours : N) (i : initiator) (e : option gframe) : connres :=
+  let own := if ours =? NO_ERROR then CROk else CRGoAway [] ours i in
+  match e with
+  | Some (_, r, d) => if r =? NO_ERROR then own else CRGoAway d r IRemote
+  | None => own
+  end.
+
+Theorem C15_take_error s ours i :
+  c_state s = CClosed ours i ->
+  cstep s LTakeError = SOk (set_conn s (CClosed ours i) None) [OConnResult (conn_result ours i (c_error s))] FReturn.
+Proof.
+  intros E. cbn [cstep]. rewrite E. unfold conn_result. destruct (c_error s) as [[[l r] d]|]; reflexivity.
+Qed.
+
+(* graceful shutdown *)
+Theorem C15_graceful_start s h :
+  InvG s h -> g_going s = None ->
+  cstep s LGraceful =
+  SOk (set_ping (set_ga (set_ids s (r_last s) MAX_ID (s_max s)) (g_close_now s) (Some (MAX_ID, NO_ERROR)) (g_user s)
+                        (Some (MAX_ID, NO_ERROR, [])))
+                (Some (PING_SHUTDOWN, false)) (p_pong s) (p_user s))
+      [ORecvMax MAX_ID] FNext.
+Proof.
+  intros HI Eg. cbn [cstep]. rewrite Eg. unfold conn_go_away. rewrite (G4 _ _ HI Eg).
+  change (MAX_ID <? MAX_ID) with false. cbn iota. unfold ga_go_away. cbn [g_going set_ids]. rewrite Eg.
+  cbn [p_ping set_ga set_ids p_pong p_user g_close_now g_user].
+  destruct (p_ping s) as [[pl b]|] eqn:Epp; [|reflexivity].
+  destruct (G7 _ _ HI pl b Epp) as (_ & A). contradiction.
+Qed.
+
+Theorem C15_graceful_twice s : g_going s <> None -> cstep s LGraceful = SOk s [] FNext.
+Proof. intros H. cbn [cstep]. destruct (g_going s); [reflexivity|contradiction]. Qed.
+
+Theorem C15_goaway_emit s l d :
+  is_open s = true -> g_pending s = Some (l, NO_ERROR, d) -> g_close_now s = false ->
+  cstep s (LPollGoAway Ready) = SOk (set_ga s false (g_going s) (g_user s) None) [OFrame (WGoAway l NO_ERROR d)] FNext.
+Proof.
+  intros Ho Ep Ec. cbn [cstep]. rewrite Ho, Ep, Ec. cbn [negb]. unfold after_go_away, should_close_now. cbn. reflexivity.
+Qed.
+
+Theorem C15_shutdown_ping_emit s pl :
+  in_poll_ready s = true -> p_ping s = Some (pl, false) ->
+  cstep s (LPollPing Ready) = SOk (set_ping s (Some (pl, true)) (p_pong s) (p_user s)) [OFrame (WPing false pl)] FNext.
+Proof. intros Hr Ep. cbn [cstep]. rewrite Hr, Ep. reflexivity. Qed.
+
+Theorem C15_shutdown_pong s h b :
+  InvG s h -> can_recv s = true -> p_ping s = Some (PING_SHUTDOWN, b) ->
+  cstep s (LRecv (InPing true PING_SHUTDOWN)) =
+  SOk (set_ga (set_ids (set_ping s None None (p_user s)) (r_last s) (r_last s) (s_max s)) false (Some (r_last s, NO_ERROR))
+              (g_user s) (Some (r_last s, NO_ERROR, [])))
+      [ORecvMax (r_last s)] FNext.
+Proof.
+  intros HI Hc Ep. cbn [cstep]. rewrite Hc. cbn [negb recv_frame].
+  apply can_recv_spec in Hc. destruct Hc as (Hpr & Hpong & _). apply in_poll_ready_spec in Hpr. destruct Hpr as (_ & _ & Hcn).
+  rewrite Hpong, Ep. rewrite N.eqb_refl. cbn [negb g_going set_ping r_last].
+  destruct (G7 _ _ HI _ _ Ep) as (_ & Hg).
+  destruct (g_going s) as [[gl gr]|] eqn:Eg; [|contradiction].
+  unfold conn_go_away. cbn [r_max set_ping r_last s_max].
+  destruct (G5 _ _ HI) as (A & _). destruct (r_max s <? r_last s) eqn:E1; [lia|].
+  unfold ga_go_away. cbn [g_going set_ids set_ping]. rewrite Eg.
+  pose proof (G6 _ _ HI gl gr Eg). destruct (r_last s <=? gl) eqn:E2; [|lia].
+  cbn [lift g_close_now set_ids set_ping g_user]. rewrite Hcn. reflexivity.
+Qed.
+
+Theorem C15_idle_close s l r :
+  is_open s = true -> g_close_now s = false -> g_going s = Some (l, r) -> l <> MAX_ID ->
+  cstep s (LIdle false) = lift (ga_go_away_now s (r_last s, NO_ERROR, [])) [] FNext.
+Proof.
+  intros Ho Ec Eg Hl. cbn [cstep]. rewrite Ho. cbn [negb]. unfold should_close_on_idle. rewrite Ec, Eg.
+  destruct (l =? MAX_ID) eqn:E; [apply N.eqb_eq in E; contradiction|]. cbn [negb andb orb].
+  destruct (c_error s); reflexivity.
+Qed.
+
+Theorem C15_close_now_closes s h l r :
+  InvG s h -> is_open s = true -> g_close_now s = true -> g_user s = false -> g_going s = Some (l, r) ->
+  exists o, cstep s (LPollGoAway Ready) =
+            SOk (set_conn (set_ga s true (Some (l, r)) false None) (CClosing r ILibrary) (c_error s)) o FLoop /\
+            (o = [] \/ exists d, g_pending s = Some (l, r, d) /\ o = [OFrame (WGoAway l r d)]).
+Proof.
+  intros HI Ho Ec Eu Eg. cbn [cstep]. rewrite Ho. cbn [negb].
+  destruct (g_pending s) as [[[pl pr] pd]|] eqn:Ep.
+  - pose proof (G1 _ _ HI pl pr pd Ep) as E. rewrite Eg in E. inversion E; subst pl pr.
+    unfold after_go_away, should_close_now. cbn [g_pending set_ga g_close_now g_user]. rewrite Ec, Eu.
+    cbn [handle_result]. unfold handle_go_away. cbn [g_going set_ga]. rewrite Eg, N.eqb_refl.
+    eexists. split; [reflexivity|]. right. exists pd. auto.
+  - rewrite Ec, Eg. unfold after_go_away, should_close_now. rewrite Ep, Ec, Eu.
+    cbn [handle_result]. unfold handle_go_away. rewrite Eg, N.eqb_refl.
+    exists []. split; [|left; reflexivity]. unfold set_conn, set_ga. cbn. rewrite Ec, Eg, Eu, Ep. destruct s; reflexivity.
+Qed.
+
+Theorem C15_closing_closed s r i :
+  c_state s = CClosing r i -> cstep s (LShutdown Ready) = SOk (set_conn s (CClosed r i) (c_error s)) [] FNext.
+Proof. intros E. cbn [cstep]. rewrite E. reflexivity. Qed.
+
+(* ==============================================================================================
+   Examples (non-vacuity) *)
+
+Definition frames_of (tr : list (label * list out * flow)) : list wframe :=
+  flat_map (fun x => flat_map (fun o => match o with OFrame f => [f] | _ => [] end) (snd (fst x))) tr.
+
+Definition results_of (tr : list (label * list out * flow)) : list connres :=
+  flat_map (fun x => flat_map (fun o => match o with OConnResult r => [r] | _ => [] end) (snd (fst x))) tr.
+
+Definition no_params : sparams := mkSP None None None None None None None.
+Definition some_params : sparams := mkSP None None (Some 100) (Some 1000) (Some 16384) None None.
+
+(* a server: takes the peer's SETTINGS while its acknowledgement is blocked once, a PING, a request on stream 1; a user ping
+   round trip; graceful shutdown with the write side blocked once; request 3 arrives before the shutdown PONG; the final GOAWAY
+   names stream 3; idle -> GOAWAY already sent with that id -> Closing -> Closed -> Ok *)
+Definition demo_labels : list label :=
+  [ LPollGoAway Ready; LPollPong Ready; LPollPing Ready; LSettingsAck Ready None; LSettingsLocal Ready;
+    LRecv (InSettings some_params);
+    LPollGoAway Ready; LPollPong Ready; LPollPing Ready; LSettingsAck NotReady None;
+    LPollGoAway Ready; LPollPong Ready; LPollPing Ready; LSettingsAck Ready None; LSettingsLocal Ready;
+    LRecv (InPing false 77);
+    LPollGoAway Ready; LPollPong NotReady;
+    LPollGoAway Ready; LPollPong Ready; LPollPing Ready; LSettingsAck Ready None; LSettingsLocal Ready;
+    LRecv (InHeaders 1 true);
+    LTakeUserPings; LUserSendPing; LUserSendPing;
+    LPollGoAway Ready; LPollPong Ready; LPollPing Ready; LSettingsAck Ready None; LSettingsLocal Ready;
+    LRecv (InPing true PING_USER); LUserPollPong; LUserPollPong;
+    LGraceful; LGraceful;
+    LPollGoAway NotReady;
+    LPollGoAway Ready; LPollPong Ready; LPollPing Ready; LSettingsAck Ready None; LSettingsLocal Ready;
+    LRecv (InHeaders 3 true);
+    LPollGoAway Ready; LPollPong Ready; LPollPing Ready; LSettingsAck Ready None; LSettingsLocal Ready;
+    LRecv (InPing true PING_SHUTDOWN);
+    LPollGoAway Ready; LPollPong Ready; LPollPing Ready; LSettingsAck Ready None; LSettingsLocal Ready;
+    LRecv (InHeaders 5 false);
+    LPollGoAway Ready; LPollPong Ready; LPollPing Ready; LSettingsAck Ready None; LSettingsLocal Ready;
+    LIdle false;
+    LPollGoAway Ready; LShutdown Ready; LTakeError ].
+
+Example demo_control :
+  match crun (init no_params) demo_labels with
+  | inl (s, tr) =>
+    frames_of tr = [ WSettingsAck; WPing true 77; WPing false PING_USER; WGoAway MAX_ID NO_ERROR []; WPing false PING_SHUTDOWN;
+                     WGoAway 3 NO_ERROR [] ] /\
+    results_of tr = [CROk] /\ c_state s = CClosed NO_ERROR ILibrary /\ r_last s = 3 /\ r_max s = 3
+  | inr _ => False
+  end.
+Proof. vm_compute. repeat split; reflexivity. Qed.
+
+(* the peer's GOAWAY with an error code and debug data is what the connection reports; a later GOAWAY with a larger id and a
+   stray SETTINGS ACK are connection errors PROTOCOL_ERROR *)
+Definition demo_labels2 : list label :=
+  [ LPollGoAway Ready; LPollPong Ready; LPollPing Ready; LSettingsAck Ready None; LSettingsLocal Ready;
+    LRecv (InSettingsAck None);
+    LPollGoAway Ready; LPollPong Ready; LPollPing Ready; LSettingsAck Ready None; LSettingsLocal Ready;
+    LRecv (InGoAway 7 2 [100; 98; 103]);
+    LPollGoAway Ready; LPollPong Ready; LPollPing Ready; LSettingsAck Ready None; LSettingsLocal Ready;
+    LRecv (InGoAway 9 0 []);
+    LPollGoAway Ready; LShutdown Ready; LTakeError ].
+
+Example demo_control2 :
+  match crun (init no_params) demo_labels2 with
+  | inl (s, tr) =>
+    frames_of tr = [WGoAway 0 PROTOCOL_ERROR []] /\ results_of tr = [CRGoAway [100; 98; 103] 2 IRemote] /\ s_max s = 7
+  | inr _ => False
+  end.
+Proof. vm_compute. repeat split; reflexivity. Qed.
+
+Example demo_stray_ack :
+  match crun (init no_params) [LPollGoAway Ready; LPollPong Ready; LPollPing Ready; LSettingsAck Ready None; LSettingsLocal Ready;
+                               LRecv (InSettingsAck None); LPollGoAway Ready; LPollPong Ready; LPollPing Ready;
+                               LSettingsAck Ready None; LSettingsLocal Ready; LRecv (InSettingsAck None);
+                               LPollGoAway Ready; LShutdown Ready; LTakeError] with
+  | inl (s, tr) => frames_of tr = [WGoAway 0 PROTOCOL_ERROR []] /\ results_of tr = [CRGoAway [] PROTOCOL_ERROR ILibrary]
+  | inr _ => False
+  end.
+Proof. vm_compute. repeat split; reflexivity. Qed.
+
+(* taking a frame while an acknowledgement is owed is impossible (Stuck), and the Rust assert behind it would fire otherwise *)
+Example demo_order :
+  crun (init no_params) [LPollGoAway Ready; LPollPong Ready; LPollPing Ready; LSettingsAck Ready None; LSettingsLocal Ready;
+                         LRecv (InPing false 5); LRecv (InPing false 6)] = inr (6, SStuck 39).
+Proof. vm_compute. reflexivity. Qed.
+
+Example demo_user_cell :
+  frun (mkF UEmpty false) [FUserSend; FLoad; FUserSend; FUserPoll; FStore; FReceivePong; FUserPoll; FDrop; FUserSend]
+  = Some (mkF UClosed false).
+Proof. vm_compute. reflexivity. Qed.
